@@ -31,7 +31,8 @@ Fixpoint prov_of (s : stack) : prov :=
 Fixpoint persistent (s : stack) : bool :=
   match s with SMem => false | SLevel => true | SCached s' | SBatched _ s' | SFmt _ s' | SFmtR _ s' => persistent s' end.
 
-(* every wrapper is flushed (outermost first), then new wrapper objects are built over the provider that holds the data *)
+(* the user calls Flush on the store (the Rewrap step runs the model's Flush first), then new wrapper objects are built
+   over the provider that holds the data; the deep flush below is then a no-op kept for the proofs *)
 Fixpoint rewrap (s : stack) : St (prov_of s) -> St (prov_of s) :=
   match s return St (prov_of s) -> St (prov_of s) with
   | SMem => fun x => x
@@ -82,7 +83,7 @@ Fixpoint check_model (P : prov) (rw : St P -> St P) (s : St P) (steps : list (ho
   match steps with
   | [] => true
   | (Op o, x) :: r => let '(s1, y) := step P s o in out_eqb x y && check_model P rw s1 r
-  | (Rewrap, x) :: r => out_eqb x ODone && check_model P rw (rw s) r
+  | (Rewrap, x) :: r => let '(s1, y) := step P s Flush in out_eqb x y && check_model P rw (rw s1) r
   end.
 
 Fixpoint spec_agrees (persist conj : bool) (a : store) (steps : list (hop * out)) : bool :=
